@@ -1,3 +1,4 @@
 import Props.C02
 import Props.C03Tables
 import Props.C03
+import Props.C13
